@@ -366,12 +366,19 @@ static int openssl_verify_sha_pem(jwt_t *jwt, const char *head,
 
 		ec_sig_r = BN_bin2bn(sig, bn_len, NULL);
 		ec_sig_s = BN_bin2bn(sig + bn_len, bn_len, NULL);
-		if (ec_sig_r  == NULL || ec_sig_s == NULL)
-			VERIFY_ERROR("Error allocating R/S params"); // LCOV_EXCL_LINE
+		if (ec_sig_r  == NULL || ec_sig_s == NULL) {
+			// LCOV_EXCL_START
+			BN_free(ec_sig_r);
+			BN_free(ec_sig_s);
+			VERIFY_ERROR("Error allocating R/S params");
+			// LCOV_EXCL_STOP
+		}
 
 		ECDSA_SIG_set0(ec_sig, ec_sig_r, ec_sig_s);
 
 		slen = i2d_ECDSA_SIG(ec_sig, NULL);
+		if (slen <= 0)
+			VERIFY_ERROR("Error calculating ECDSA sig"); // LCOV_EXCL_LINE
 
 		/* Reset this with the new information */
 		old_sig = sig;
@@ -382,7 +389,7 @@ static int openssl_verify_sha_pem(jwt_t *jwt, const char *head,
 		p = sig;
 		slen = i2d_ECDSA_SIG(ec_sig, &p);
 
-		if (slen == 0)
+		if (slen <= 0)
 			VERIFY_ERROR("Error calculating ECDSA sig"); // LCOV_EXCL_LINE
 	}
 
